@@ -90,7 +90,7 @@ package core
 //@   ensures isNumV(v) <==> t == types.Number
 //@   ensures typeis(v, "SuBool") ==> t == types.Boolean
 //@   ensures typeis(v, "SuStr") ==> t == types.String
-//@   ensures typeis(v, "SuDate") || typeis(v, "SuTimestamp") ==> t == types.Date
+//@   ensures typeis(v, "SuDate") || typeis(v, "SuTimestamp") <==> t == types.Date
 //@ func (si *smi) Type() (t)
 //@   ensures! t == types.Number
 //@ func (si SuInt64) Type() (t)
@@ -111,7 +111,7 @@ package core
 //@   ensures! bool: typeis(x, "SuBool") ==> r == 0
 //@   ensures! num: isNumV(x) <==> r == 1
 //@   ensures! str: typeis(x, "SuStr") ==> r == 2
-//@   ensures! date: typeis(x, "SuDate") || typeis(x, "SuTimestamp") ==> r == 3
+//@   ensures! date: typeis(x, "SuDate") || typeis(x, "SuTimestamp") <==> r == 3
 
 // ---- hashing: equal numbers hash equally whatever their representation --------
 //@ spec hashInt(n int) int = mod(mod(n, 18446744073709551616) * 11400714819323198485, 18446744073709551616)
@@ -186,4 +186,104 @@ package core
 //@ func (d IDbms) Close()
 //@   assumed
 //@   requires authz
+//@   modifies all
+
+//@ property C33
+
+// ---- dates: bit fields --------------------------------------------------------------------
+// date: 21 bits year, 4 bits month, 5 bits day; time: 10 bits hour, 6 minute, 6 second, 10 ms
+//@ spec dYear(d SuDate) int = d.date >> 9
+//@ spec dMonth(d SuDate) int = (d.date >> 5) & 15
+//@ spec dDay(d SuDate) int = d.date & 31
+//@ spec dHour(d SuDate) int = d.time >> 22
+//@ spec dMinute(d SuDate) int = (d.time >> 16) & 63
+//@ spec dSecond(d SuDate) int = (d.time >> 10) & 63
+//@ spec dMs(d SuDate) int = d.time & 1023
+//@ spec validFields(y int, mo int, d int, h int, mi int, s int, ms int) bool = 0 <= y && y <= 3000 && 1 <= mo && mo <= 12 && 1 <= d && d <= 31 && 0 <= h && h <= 23 && 0 <= mi && mi <= 59 && 0 <= s && s <= 59 && 0 <= ms && ms <= 999
+//@ spec validDate(d SuDate) bool = validFields(dYear(d), dMonth(d), dDay(d), dHour(d), dMinute(d), dSecond(d), dMs(d))
+
+//@ func (d SuDate) Year() (r)
+//@   ensures! r == dYear(d)
+//@ func (d SuDate) Month() (r)
+//@   ensures! r == dMonth(d)
+//@ func (d SuDate) Day() (r)
+//@   ensures! r == dDay(d)
+//@ func (d SuDate) Hour() (r)
+//@   ensures! r == dHour(d)
+//@ func (d SuDate) Minute() (r)
+//@   ensures! r == dMinute(d)
+//@ func (d SuDate) Second() (r)
+//@   ensures! r == dSecond(d)
+//@ func (d SuDate) Millisecond() (r)
+//@   ensures! r == dMs(d)
+
+// valid: the field ranges are checked here; the day-of-month check delegates to Go's time package (assumed)
+//@ func valid(yr, mon, day, hr, min, sec, ms) (r)
+//@   assumed
+//@   pure
+//@   ensures r ==> validFields(yr, mon, day, hr, min, sec, ms)
+//@ func DateTime(date, time) (r)
+//@   ensures! r == NilDate || (r.date == date && r.time == time && validDate(r))
+//@ func NewDate(yr, mon, day, hr, min, sec, ms) (r)
+//@   mode bv
+//@   ensures! packed: r == NilDate || (r.date == uint32((yr << 9) | (mon << 5) | day) && r.time == uint32((hr << 22) | (min << 16) | (sec << 10) | ms))
+// the packing is field-wise exact and equals the positional sum, so the unsigned
+// order of (date, time) is the chronological (lexicographic) order of the fields
+//@ lemma! date_pack_fields(yr int, mon int, day int): 0 <= yr && yr <= 3000 && 1 <= mon && mon <= 12 && 1 <= day && day <= 31 ==> uint32((yr << 9) | (mon << 5) | day) == uint32(yr * 512 + mon * 32 + day) && (uint32((yr << 9) | (mon << 5) | day) >> 9) == uint32(yr) && ((uint32((yr << 9) | (mon << 5) | day) >> 5) & 15) == uint32(mon) && (uint32((yr << 9) | (mon << 5) | day) & 31) == uint32(day)
+//@   mode bv
+//@ lemma! time_pack_fields(hr int, min int, sec int, ms int): 0 <= hr && hr <= 23 && 0 <= min && min <= 59 && 0 <= sec && sec <= 59 && 0 <= ms && ms <= 999 ==> uint32((hr << 22) | (min << 16) | (sec << 10) | ms) == uint32(hr * 4194304 + min * 65536 + sec * 1024 + ms) && (uint32((hr << 22) | (min << 16) | (sec << 10) | ms) >> 22) == uint32(hr) && ((uint32((hr << 22) | (min << 16) | (sec << 10) | ms) >> 16) & 63) == uint32(min) && ((uint32((hr << 22) | (min << 16) | (sec << 10) | ms) >> 10) & 63) == uint32(sec) && (uint32((hr << 22) | (min << 16) | (sec << 10) | ms) & 1023) == uint32(ms)
+//@   mode bv
+//@ lemma! date_order_is_chronological(y1 int, m1 int, d1 int, y2 int, m2 int, d2 int): 0 <= y1 && y1 <= 3000 && 1 <= m1 && m1 <= 12 && 1 <= d1 && d1 <= 31 && 0 <= y2 && y2 <= 3000 && 1 <= m2 && m2 <= 12 && 1 <= d2 && d2 <= 31 ==> (y1 * 512 + m1 * 32 + d1 < y2 * 512 + m2 * 32 + d2 <==> y1 < y2 || (y1 == y2 && (m1 < m2 || (m1 == m2 && d1 < d2))))
+//@ lemma! time_order_is_chronological(h1 int, mi1 int, s1 int, ms1 int, h2 int, mi2 int, s2 int, ms2 int): 0 <= h1 && h1 <= 23 && 0 <= mi1 && mi1 <= 59 && 0 <= s1 && s1 <= 59 && 0 <= ms1 && ms1 <= 999 && 0 <= h2 && h2 <= 23 && 0 <= mi2 && mi2 <= 59 && 0 <= s2 && s2 <= 59 && 0 <= ms2 && ms2 <= 999 ==> (h1 * 4194304 + mi1 * 65536 + s1 * 1024 + ms1 < h2 * 4194304 + mi2 * 65536 + s2 * 1024 + ms2 <==> h1 < h2 || (h1 == h2 && (mi1 < mi2 || (mi1 == mi2 && (s1 < s2 || (s1 == s2 && ms1 < ms2))))))
+
+// ---- order ------------------------------------------------------------------------------------
+//@ spec dateLess(a SuDate, b SuDate) bool = a.date < b.date || (a.date == b.date && a.time < b.time)
+//@ func (d SuDate) Compare(other) (r)
+//@   nonil
+//@   ensures! class: typeis(other, "SuBool") || isNumV(other) || typeis(other, "SuStr") ==> r == 2
+//@   ensures! date: typeis(other, "SuDate") ==> r == (dateLess(d, unbox(other, "SuDate")) ? -1 : dateLess(unbox(other, "SuDate"), d) ? 1 : 0)
+//@   ensures! timestamp: typeis(other, "SuTimestamp") ==> r == (dateLess(d, unbox(other, "SuTimestamp").SuDate) ? -1 : dateLess(unbox(other, "SuTimestamp").SuDate, d) ? 1 : unbox(other, "SuTimestamp").extra > 0 ? -1 : 0)
+//@ func CompareSuTimestamp(d1, d2) (r)
+//@   ensures! lex: r == (dateLess(d1.SuDate, d2.SuDate) ? -1 : dateLess(d2.SuDate, d1.SuDate) ? 1 : d1.extra < d2.extra ? -1 : d1.extra > d2.extra ? 1 : 0)
+
+// ---- day arithmetic ------------------------------------------------------------------------------
+//@ spec jdn(y int, m int, d int) int = d + (153 * (m + 12 * ((14 - m) / 12) - 3) + 2) / 5 + 365 * (y + 4800 - (14 - m) / 12) + (y + 4800 - (14 - m) / 12) / 4 - (y + 4800 - (14 - m) / 12) / 100 + (y + 4800 - (14 - m) / 12) / 400 - 32045
+//@ spec isLeap(y int) bool = y % 4 == 0 && (y % 100 != 0 || y % 400 == 0)
+//@ spec monthLen(y int, m int) int = m == 2 ? (isLeap(y) ? 29 : 28) : (m == 4 || m == 6 || m == 9 || m == 11) ? 30 : 31
+//@ func julianDayNumber(year, month, day) (r)
+//@   requires 0 <= year && year <= 3000 && 1 <= month && month <= 12 && 1 <= day && day <= 31
+//@   ensures! r == jdn(year, month, day)
+//@ func (d SuDate) jday() (r)
+//@   requires validDate(d)
+//@   ensures! r == jdn(dYear(d), dMonth(d), dDay(d))
+//@ func (d SuDate) MinusDays(other) (r)
+//@   requires validDate(d) && validDate(other)
+//@   ensures! r == jdn(dYear(d), dMonth(d), dDay(d)) - jdn(dYear(other), dMonth(other), dDay(other))
+// the Julian day number is a day count on the proleptic Gregorian calendar:
+// the successor of every calendar day has the next number
+//@ lemma! jdn_next_day(y int, m int, d int): 0 <= y && y <= 3000 && 1 <= m && m <= 12 && 1 <= d && d < monthLen(y, m) ==> jdn(y, m, d + 1) == jdn(y, m, d) + 1
+//@ lemma! jdn_next_month(y int, m int): 0 <= y && y <= 3000 && 1 <= m && m < 12 ==> jdn(y, m + 1, 1) == jdn(y, m, monthLen(y, m)) + 1
+//@ lemma! jdn_next_year(y int): 0 <= y && y < 3000 ==> jdn(y + 1, 1, 1) == jdn(y, 12, 31) + 1
+
+// ---- milliseconds --------------------------------------------------------------------------------
+//@ func (d SuDate) Plus(yr, mon, day, hr, min, sec, ms) (r)
+//@   assumed
+//@   modifies all
+//@   ensures validDate(r)
+//@ func (d SuDate) AddMs(ms) (r)
+//@   requires validDate(d) && 0 < ms && ms < 100
+//@   modifies all
+//@   ensures! fast: dMs(d) + ms < 1000 ==> r.date == d.date && r.time == d.time + ms && dMs(r) == dMs(d) + ms && dSecond(r) == dSecond(d) && dMinute(r) == dMinute(d) && dHour(r) == dHour(d)
+//@   ensures! later: dMs(d) + ms < 1000 ==> dateLess(d, r)
+//@ func (d SuDate) WithoutMs() (r)
+//@   ensures! r.date == d.date && dMs(r) == 0 && dSecond(r) == dSecond(d) && dMinute(r) == dMinute(d) && dHour(r) == dHour(d)
+//@ func (d SuDate) timeAsMs() (r)
+//@   requires validDate(d)
+//@   ensures! r == dMs(d) + 1000 * (dSecond(d) + 60 * (dMinute(d) + 60 * dHour(d)))
+
+// ---- literals: index safety and accepted lengths -----------------------------------------------------
+//@ func nsub(s, from, to) (r)
+//@   requires 0 <= from && from <= to
+//@ func DateFromLiteral(s) (r)
+//@   requires len(s) > 0
 //@   modifies all
